@@ -840,8 +840,6 @@ Proof.
   - intros c Hcle. unfold stop_sending. destruct (N.ltb_spec varint_max c); [lia|]. reflexivity.
   - intros a o' Ha. destruct (recv_step OPollData (ready_state r q) (a :: o')) as [[x r3] o3] eqn:HS.
     pose proof (recv_step_inv _ _ _ _ _ _ _ Hinv2 HS) as Hinv3.
-    assert (Hord : answers_ordered (a :: o' ++ [])).
-    { clear. unfold answers_ordered. constructor. }
     cbn [recv_step] in HS. destruct (poll_data (a :: o') (ready_state r q)) as [[x0 r0] o0] eqn:HP.
     inversion HS; subst. exists x0, r3, o3. split; [reflexivity|]. split; [|split; [exact Hinv3|apply recv_id_ok; exact Hinv3]].
     destruct Hinv2 as (_ & (q2' & Hq2' & _) & _). rewrite (poll_data_char _ q2' _ Hq2') in HP.
